@@ -63,6 +63,32 @@ def run_schedule(d, thread_files, sched, caller=None):
         for t in ths: t.join(timeout=30)
     return results
 
+def run_dir_schedule(d, sched, dir_namespaces):
+    """call 0 parses a.xml; call 1 parses the DIRECTORY with a namespace list that selects b.xml only, and is not started before it gets its first turn
+    (so that it can list the directory while call 0 has its helper file on disk).  Oracle only: the model has no directory listing."""
+    from opcua_tools.nodeset_parser import parse_xml_files, parse_xml_dir
+    S = Scheduler(2); results = [None, None]
+    def work(i):
+        S.register(i)
+        try:
+            if i == 1: S.op("exists")          # wait for the first turn before the directory is listed
+            res = parse_xml_files([os.path.join(d, "a.xml")]) if i == 0 else parse_xml_dir(d, list(dir_namespaces))
+            results[i] = ["ok", whole_result(res)]
+        except BaseException as e:
+            results[i] = ["err", type(e).__name__]
+        finally:
+            S.finish(i)
+    with inject.intercepted(S):
+        ths = [threading.Thread(target=work, args=(i,), daemon=True) for i in range(2)]
+        for t in ths: t.start()
+        for i in sched: S.give(i)
+        for i in range(2):
+            for _ in range(60):
+                if i in S.done: break
+                S.give(i)
+        for t in ths: t.join(timeout=30)
+    return results
+
 def solo(d, name, caller=None):
     from opcua_tools.nodeset_parser import parse_xml_files
     return ["ok", whole_result(parse_xml_files([os.path.join(d, name)], None if caller is None else list(caller)))]
@@ -119,6 +145,22 @@ def check(ctx):
     sets = [(["a.xml", "b.xml"], None), (["a.xml", "a.xml"], None), (["a.xml", "a.xml", "b.xml"], None), (["a.xml", "b.xml"], CALLER)]
     reqs = []; meta = []
     try:
+        # a directory parse next to a file parse: the directory call lists the directory at every point of the other call's life
+        from opcua_tools.nodeset_parser import parse_xml_dir
+        d0 = os.path.join(work, "dirrun")
+        for k0 in range(0, 10 if ctx.quick() else 14):
+            shutil.rmtree(d0, ignore_errors=True)
+            write_docs(d0, [(n, docs.render(doc, random.Random(1))) for n, doc in files_doc])
+            nsl = [docs.UA, "urn:b"]
+            lone = [solo(d0, "a.xml"), ["ok", whole_result(parse_xml_dir(d0, list(nsl)))]]
+            sched = [0] * k0 + [1] * 12
+            res = run_dir_schedule(d0, sched, nsl)
+            left = sorted(set(os.listdir(d0)) - {"a.xml", "b.xml"})
+            ctx.record(dict(threads=["a.xml", "dir[urn:b]"], schedule=sched), k0 > 0, ["threads=a.xml,directory", "all-solo" if res == lone else "interference"])
+            for i in range(2):
+                if res[i] != lone[i]:
+                    ctx.fail("C20/interference", dict(kind="dir-schedule", k0=k0), "call %d (%s): %r, the lone call returns its own data" % (i, ["a.xml", "directory"][i], res[i][:2] if res[i][0] == "err" else "other data"))
+            if left: ctx.fail("C20/interference", dict(kind="dir-schedule", k0=k0), "files left behind: %r" % left)
         for tf, caller in sets:
             if len(tf) == 2:
                 if ctx.quick() or tf[0] == tf[1] or caller:
@@ -163,6 +205,12 @@ def oracle_case(case):
     try:
         rng = random.Random(5)
         da = docs.simple_doc(rng, "urn:a"); db = docs.simple_doc(rng, "urn:b", n_nodes=2, with_aliases=False)
+        if case.get("kind") == "dir-schedule":
+            from opcua_tools.nodeset_parser import parse_xml_dir
+            d0 = os.path.join(work, "dirrun"); write_docs(d0, [(n, docs.render(doc, random.Random(1))) for n, doc in [("a.xml", da), ("b.xml", db)]])
+            nsl = [docs.UA, "urn:b"]; lone = [solo(d0, "a.xml"), ["ok", whole_result(parse_xml_dir(d0, list(nsl)))]]
+            res = run_dir_schedule(d0, [0] * case["k0"] + [1] * 12, nsl)
+            return [("C20/interference", "call %d differs from the lone call" % i) for i in range(2) if res[i] != lone[i]]
         out, left, fails = judge([("a.xml", da), ("b.xml", db)], case["threads"], case["schedule"], work, case.get("caller"))
         return fails
     finally:
